@@ -99,6 +99,147 @@ def check(case):
     return {"nontrivial": nt, "classes": cl}
 
 
+def reflexive(res, T, what):
+    req(res.firstOnly == 0 and res.secondOnly == 0, "self-comparison-has-exclusive-keys", f"{what}: firstOnly {res.firstOnly}, secondOnly {res.secondOnly}")
+    for r in res.rows:
+        req(r.type == T.BOTH, "self-comparison-row-type", f"{what}: row typed {r.type}")
+        for name in ("identity", "alignment1Coverage", "alignment2Coverage"):
+            req(0 <= getattr(r, name) <= 1, "measure-out-of-range", f"{what} key {(r.queryId, r.referenceId)}: {name} = {getattr(r, name)}")
+        if r.alignment1.alignedPairs:
+            req(r.identity == 1 and r.alignment1Coverage == 1 and r.alignment2Coverage == 1, "self-comparison-not-perfect",
+                f"{what} key {(r.queryId, r.referenceId)}: identity {r.identity}, coverages {r.alignment1Coverage}/{r.alignment2Coverage}")
+            req(not r.alignment1ExclusivePairs and not r.alignment2ExclusivePairs, "self-comparison-exclusive-pairs",
+                f"{what} key {(r.queryId, r.referenceId)} reports exclusive pairs")
+
+
+def check_program(case):
+    """the compare_alignments program itself: one benchmark reader (XMAP or simulation-data input) reads the two files and
+    AlignmentComparer.compare runs on what it returns - a file compared with itself, and two files in both orders"""
+    import io
+    import os
+    import shutil
+    import tempfile
+    from src import compare_alignments as ca
+    from src.diagnostic.alignment_comparer import AlignmentRowComparisonResultType as T
+    from vlib import cmap_text
+    d = tempfile.mkdtemp(prefix="coma_c19_")
+    opened = []
+    try:
+        rp, qp = os.path.join(d, "r.cmap"), os.path.join(d, "q.cmap")
+        open(rp, "w").write(cmap_text.cmap_text(case["refs"]))
+        open(qp, "w").write(cmap_text.cmap_text(case["queries"]))
+        files = []
+        for k, text in enumerate(case["files"]):
+            fp = os.path.join(d, f"a{k}.{'sdata' if case['format'] == 'sdata' else 'xmap'}")
+            open(fp, "w").write(text)
+            files.append(fp)
+        argv = [files[0], files[-1], "-r", rp, "-q", qp, "-o", os.path.join(d, "out.txt")]
+        args = sut(ca.Args.parse, argv)
+        opened = list(args.alignmentFiles) + [args.referenceFile, args.queryFile, args.outputFile]
+        prog = sut(ca.Program, args)
+        reader = sut(getattr(prog, "_Program__getBenchmarkReader"))
+        n = {}
+        for key in ("A", "B"):
+            fp = files[0] if key == "A" else files[-1]
+            with open(fp) as f:
+                n[key] = sut(reader.read, f)
+        with open(files[0]) as f:
+            again = sut(reader.read, f)
+        aa = sut(prog.comparer.compare, n["A"], again)
+        reflexive(aa, T, "file compared with itself")
+        ab = sut(prog.comparer.compare, n["A"], n["B"])
+        ba = sut(prog.comparer.compare, n["B"], n["A"])
+        ka = {(a.queryId, a.referenceId) for a in n["A"]}
+        kb = {(a.queryId, a.referenceId) for a in n["B"]}
+        req(ab.overlapping + ab.nonOverlapping + ab.firstOnly + ab.secondOnly == len(ka | kb), "keys-not-partitioned",
+            f"program: {ab.overlapping}+{ab.nonOverlapping}+{ab.firstOnly}+{ab.secondOnly} != {len(ka | kb)} distinct keys")
+        req((ab.firstOnly, ab.secondOnly) == (len(ka - kb), len(kb - ka)), "first-only-count", f"program: only-counts {(ab.firstOnly, ab.secondOnly)}, set differences {(len(ka - kb), len(kb - ka))}")
+        req((ba.firstOnly, ba.secondOnly) == (ab.secondOnly, ab.firstOnly), "swap-only-counts", "program: only-counts not swapped")
+        for f in list(args.alignmentFiles) + [args.referenceFile, args.queryFile]:
+            f.seek(0)        # the harness has read them once already
+        sut(prog.run)        # the whole program, writing its report
+        rev = any(a.reverseStrand for a in n["A"])
+        return {"nontrivial": bool(n["A"]) and rev, "classes": [case["format"], "reverse" if rev else "forward-only", f"alignments={min(len(n['A']), 3)}"]}
+    finally:
+        for f in opened:
+            try:
+                f.close()
+            except Exception:  # noqa: BLE001
+                pass
+        shutil.rmtree(d, ignore_errors=True)
+
+
+@st.composite
+def program_case(draw):
+    nr, nq = draw(st.integers(1, 2)), draw(st.integers(1, 4))
+    refs, queries = [], []
+    for i in range(nr):
+        k = draw(st.integers(8, 30))
+        lab = [float(1000 + 1000 * j + draw(st.integers(0, 400))) for j in range(k)]
+        refs.append({"id": i + 1, "labels": lab, "length": lab[-1] + 500.0})
+    for i in range(nq):
+        k = draw(st.integers(3, 12))
+        lab = [float(1000 * j + draw(st.integers(0, 300))) for j in range(k)]
+        queries.append({"id": draw(st.sampled_from([i + 1, i + 11])), "labels": lab, "length": lab[-1] + 1.0})
+    ids = set()
+    queries = [q for q in queries if not (q["id"] in ids or ids.add(q["id"]))]
+    fmt = draw(st.sampled_from(["sdata", "sdata", "xmap"]))
+
+    def alignment_of(q):
+        ref = draw(st.sampled_from(refs))
+        n, m = len(q["labels"]), len(ref["labels"])
+        rev = draw(st.booleans())
+        start = draw(st.integers(0, max(0, m - n)))
+        pairs = []          # (ref index0, query label 1-based)
+        r = start
+        for ql in range(1, n + 1):
+            kind = draw(st.sampled_from(["tp", "tp", "tp", "fp", "double"]))
+            if r >= m:
+                kind = "fp"
+            if kind == "fp":
+                pairs.append((None, ql))
+                continue
+            pairs.append(((r,) if kind == "tp" or r + 1 >= m else (r, r + 1), ql))
+            r += 1 if kind == "tp" or r + 1 >= m else 2
+            r += draw(st.sampled_from([0, 0, 1]))
+        return ref, rev, pairs
+
+    def sdata(als):
+        lines = ["#Fragment ID\tReference\tStrand\tStart\tStop\tSimuInfoDetail\tSize"]
+        for q, (ref, rev, pairs) in als:
+            detail = []
+            seq = pairs if not rev else [(tuple(ref_idx[::-1]) if ref_idx else None, ql) for ref_idx, ql in pairs]
+            if rev:   # on the reverse strand the reference indices descend along the query
+                m = len(ref["labels"])
+                seq = [((tuple(m - 1 - x for x in ref_idx)) if ref_idx else None, ql) for ref_idx, ql in pairs]
+            for ref_idx, _ in seq:
+                detail.append("FP" if not ref_idx else ",".join(f"{ref['id']}:{x}" for x in ref_idx))
+            lines.append("\t".join([str(q["id"]), str(ref["id"]), "-" if rev else "+", "1000", "90000", ";".join(detail), str(int(q["length"]))]))
+        return "\n".join(lines) + "\n"
+
+    def xmap(als):
+        lines = ["# XMAP File Version:\t0.2",
+                 "#h XmapEntryID\tQryContigID\tRefContigID\tQryStartPos\tQryEndPos\tRefStartPos\tRefEndPos\tOrientation\tConfidence\tHitEnum\tQryLen\tRefLen\tLabelChannel\tAlignment",
+                 "#f int\tint\tint\tfloat\tfloat\tfloat\tfloat\tstring\tfloat\tstring\tfloat\tfloat\tint\tstring"]
+        for k, (q, (ref, rev, pairs)) in enumerate(als, 1):
+            m = len(ref["labels"])
+            pl = [((m - 1 - x) if rev else x, ql) for ref_idx, ql in pairs if ref_idx for x in ref_idx]
+            pl.sort()
+            if not pl:
+                continue
+            al = "".join(f"({r + 1},{ql})" for r, ql in pl)
+            lines.append("\t".join([str(k), str(q["id"]), str(ref["id"]), "0.0", "1000.0", "1000.0", "9000.0", "-" if rev else "+", "10.00",
+                                    f"{len(pl)}M", f"{q['length']:.1f}", f"{ref['length']:.1f}", "1", al]))
+        return "\n".join(lines) + "\n"
+    # every file holds at least one alignment (reading a file without records is the readers' business: C07 / C18)
+    first = [(q, alignment_of(q)) for q in queries if draw(st.integers(0, 4)) > 0] or [(queries[0], alignment_of(queries[0]))]
+    second = [x if draw(st.integers(0, 2)) > 0 else (x[0], alignment_of(x[0])) for x in first if draw(st.integers(0, 4)) > 0]
+    second += [(q, alignment_of(q)) for q in queries if q["id"] not in {x[0]["id"] for x in first} and draw(st.booleans())]
+    second = second or [first[0]]
+    render = sdata if fmt == "sdata" else xmap
+    return {"refs": refs, "queries": queries, "format": fmt, "files": [render(first), render(second)]}
+
+
 @st.composite
 def pairs_st(draw):
     n = draw(st.one_of(st.integers(0, 6), st.integers(0, 40), st.integers(0, 150)))
@@ -148,6 +289,9 @@ def subchecks(tier):
     q = tier == "quick"
     subs = [Sub("laws", "hyp", check, strategy=strategy, examples=24000 if q else 600000, shrink_budget=800,
                 required_classes=("duplicated-query-label", "key-twice-in-one-set", "empty-alignment", "combine", "repeated-identical-pair"))]
+    subs.append(Sub("program", "hyp", check_program, strategy=program_case, examples=1600 if q else 40000, shrink_budget=200,
+                    describe="the compare_alignments program on generated simulation-data (SDATA) and XMAP files: a file against itself, two files in both orders",
+                    required_classes=("sdata", "xmap", "reverse")))
     if not q:
         subs.append(fuzz_variant(next(s for s in subs if s.name == "laws"), 40000))
     return subs
